@@ -131,6 +131,11 @@ func mergeModifyRow(ts *ovsdb.TableSchema, o, a, b *ovsdb.Row) *ovsdb.Row {
 			if o == nil {
 				// assume zero value if original does not have the column
 				o = reflect.Zero(reflect.TypeOf(v)).Interface()
+				if u, ok := v.(ovsdb.UUID); ok && u.GoUUID == "00000000-0000-0000-0000-000000000000" {
+					// the default of a uuid column can be written as the
+					// all-zero uuid as well: back to it is back to the original
+					o = v
+				}
 			}
 			if set, ok := o.(ovsdb.OvsSet); ok {
 				// atomic optional values are cleared out with an empty set
